@@ -735,7 +735,7 @@ rc::Gen<Case> gen_fence()
 void campaign(Ctx& ctx)
 {
 	bool const thorough = ctx.opt.tier == "thorough";
-	int const n = thorough ? 40000 : 1500;
+	int const n = thorough ? 40000 : 5000;
 	ctx.rc_campaign("registry histories (short)", gen_case(25, false), n, 60, 1);
 	ctx.rc_campaign("registry histories (long)", gen_case(80, thorough), n / 2, 200, 2);
 	ctx.rc_campaign("ephemeral fence", gen_fence(), n / 3, 60, 3);
